@@ -159,7 +159,9 @@ def generate(tape, tier="quick"):
     if tape.chance(1, 5):
         left_out = [tape.draw(n)]
     return {"engine": "V", "components": comps, "trees": trees, "left_out": left_out,
-            "listing": tape.shuffle(list(range(n)))}
+            "listing": tape.shuffle(list(range(n))),
+            # a rejected composition is asked again (connect() or run() on the same object): the verdict has to be the same
+            "retry": tape.weighted([(None, 2), ("connect", 1), ("run", 1)])}
 
 
 # ------------------------------------------------------------------------ M-valid
@@ -252,6 +254,18 @@ def execute(sc):
             status, exc = "connect-error", e
         except Exception as e:
             status, exc = "other", e
+        status2, exc2 = None, None
+        if status == "connect-error" and sc.get("retry"):
+            try:
+                if sc["retry"] == "connect":
+                    composition.connect(None)
+                else:
+                    composition.run(end_time=dt(3))
+                status2 = "ok"
+            except FinamConnectError as e:
+                status2, exc2 = "connect-error", e
+            except Exception as e:      # noqa: BLE001
+                status2, exc2 = "other", e
     finally:
         ins.uninstall()
     data_before = [e for e in rec.events if e[0] in ("PUSH", "GET")]
@@ -267,6 +281,10 @@ def execute(sc):
               f"topology with {sorted(reasons)} was not rejected by validation (connect ended: {status} {type(exc).__name__ if exc else ''} {exc})")
         elif data_before:
             v("valid-late", ",".join(sorted(reasons)), f"rejected only after data was exchanged: {data_before[:3]}")
+        elif status2 is not None and status2 != "connect-error":
+            v("valid-false-accept", "second-attempt:" + ",".join(sorted(reasons)),
+              f"topology with {sorted(reasons)} was rejected by connect(), but a second {sc['retry']}() on the same "
+              f"composition ended with {status2} {type(exc2).__name__ if exc2 else ''} {exc2}")
     else:
         if status == "connect-error":
             v("valid-false-reject", "none", f"workable topology rejected: {exc}")
@@ -297,6 +315,7 @@ def execute(sc):
     return {"violations": viol, "digest": digest_of([sc["components"], sc["trees"], sc["left_out"]]),
             "nontrivial": (n_ad[0] >= 1 and (fan or bool(reasons))) or bool(sc.get("long_series")),
             "probes": {"post_validation_failure": int(not want_reject and status == "other"),
+                       "rejected_compositions_asked_again": int(status2 is not None),
                        "long_series_of_relays": int(bool(sc.get("long_series")))},
             "faults": {"F7_listing_permuted": int(sc["listing"] != sorted(sc["listing"]))},
             "sig": cls, "cls": cls, "sim_hours": 0,
